@@ -85,6 +85,10 @@ func GenOT(w *World, maxEdits int, opts ...string) *Scenario {
 				"items": []any{map[string]any{"key": ".spec.size", "destination": ".c"}}})
 		}
 	}
+	if len(sources) > 1 && s.Bool("optional-first") {
+		// the order of spec.sources is the user's: an optional source may come before a required one
+		sources[0], sources[1] = sources[1], sources[0]
+	}
 	for i := range sources {
 		if m := sources[i].(map[string]any); m["namespace"] == "" {
 			delete(m, "namespace")
